@@ -599,6 +599,7 @@ public:
     ///destructor
     ~promise() {
         auto m = _owner.load(std::memory_order_relaxed);
+        COCLS_VERIF_POINT(prom_dtor);
         if (m) m->resolve();
 
     }
@@ -641,8 +642,10 @@ public:
     template<typename ... Args>
     suspend_point<bool> set_value(Args && ... args) {
         auto m = claim();
+        COCLS_VERIF_POINT(prom_claim_post);
         if (m) {
             m->set(std::forward<Args>(args)...);
+            COCLS_VERIF_POINT(fut_set_post);
             return suspend_point<bool>(m->resolve(), true);
         }
         return suspend_point<bool>(false);
@@ -654,6 +657,7 @@ public:
       * */
     suspend_point<bool> set_value(DropTag) {
         auto m = claim();
+        COCLS_VERIF_POINT(prom_claim_post);
         if (m) {
             return suspend_point<bool>(m->resolve(), true);
         }
@@ -662,6 +666,7 @@ public:
 
     suspend_point<bool> reference(reference_type value) {
         auto m = claim();
+        COCLS_VERIF_POINT(prom_claim_post);
         if (m) {
             m->set_ptr(&value);
             return suspend_point<bool>(m->resolve(), true);
@@ -694,6 +699,7 @@ public:
 
     ///claim this future as pointer to promise - used often internally
     future<T> *claim() const {
+        COCLS_VERIF_POINT(prom_claim_pre);
         return _owner.exchange(nullptr, std::memory_order_relaxed);
     }
 
@@ -758,8 +764,10 @@ protected:
     template<typename ... Args>
     [[nodiscard]] std::coroutine_handle<> set_value_and_suspend(Args && ... args) {
         auto m = claim();
+        COCLS_VERIF_POINT(prom_claim_post);
         if (m) {
             m->set(std::forward<Args>(args)...);
+            COCLS_VERIF_POINT(fut_set_post);
             return m->resolve_resume();
         } else {
             return std::noop_coroutine();
@@ -768,6 +776,7 @@ protected:
 
     [[nodiscard]] std::coroutine_handle<> set_value_and_suspend(DropTag) {
         auto m = claim();
+        COCLS_VERIF_POINT(prom_claim_post);
         if (m) {
             return m->resolve_resume();
         } else {
@@ -781,6 +790,7 @@ protected:
      */
     [[nodiscard]] std::coroutine_handle<> drop_and_suspend() {
         auto m = claim();
+        COCLS_VERIF_POINT(prom_claim_post);
         if (m) {
             return m->resolve_resume();
         } else {
